@@ -481,9 +481,27 @@ let op_latebound (args : str list) : str list =
   | Inl ks -> ["ok"; S.concat " " (List.map ikind_name ks)]
   | Inr ds -> ["err"; S.concat " " (List.map (fun (c, p) -> dec_of_n c ^ "@" ^ dec_of_n p) ds)]
 
+(* renderer model with declarations: "<hex text>" -> the significant tokens the renderer model writes for the variables, the
+   edge inputs and the statement list the parser model reads from the text | notparsed *)
+let op_fbdrender (args : str list) : str list =
+  match args with
+  | [h] ->
+      (match parse_fbd_text (text_of_hex h) with
+       | O2Parsed (ds, l) ->
+           let vars = List.filter (function DVar _ -> true | _ -> false) ds in
+           let edges = List.filter (function DEdge _ -> true | _ -> false) ds in
+           let toks = render_decls (vars @ edges) @ render_list l in
+           [ "rendered";
+             S.concat " " (List.filter_map (fun (t : token) ->
+               let k = kind_name t.t_kind in
+               if k = "Whitespace" || k = "Newline" || k = "Comment" then None
+               else Some (k ^ ":" ^ hex_of_text t.t_text)) toks) ]
+       | _ -> ["notparsed"])
+  | _ -> ["bad-args"]
+
 let ops : (str * (str list -> str list)) list ref =
   ref [ ("lex", op_lex); ("semtok", op_semtok); ("decode", op_decode); ("lit", op_lit); ("cycle", op_cycle);
-        ("lsp", op_lsp); ("cli", op_cli); ("rule", op_rule); ("expr", op_expr); ("scope", op_scope); ("stmts", op_stmts); ("strender", op_strender); ("rules", op_rules); ("latebound", op_latebound); ("fbd", op_fbd) ]
+        ("lsp", op_lsp); ("cli", op_cli); ("rule", op_rule); ("expr", op_expr); ("scope", op_scope); ("stmts", op_stmts); ("strender", op_strender); ("rules", op_rules); ("latebound", op_latebound); ("fbd", op_fbd); ("fbdrender", op_fbdrender) ]
 
 
 let () =
